@@ -311,7 +311,9 @@ def oklch_to_rgb_safe(oklch: Tuple[float, float, float]) -> Tuple[int, int, int]
     except Exception as e:
         # Fallback to grayscale if conversion fails
         L, C, H = oklch
-        gray_value = max(0, min(255, round(L * 255)))
+        # clamp before rounding: round() raises for an infinite (or NaN) product
+        L = L if L == L else 0.0
+        gray_value = round(max(0.0, min(1.0, L)) * 255)
         return (gray_value, gray_value, gray_value)
 
 
